@@ -441,7 +441,7 @@ func TestC20(t *testing.T) {
 		})
 		// one file larger than the read buffer (lines straddle the refill boundary)
 		if shard == 0 {
-			c := Case{Kind: "file", Epoch: 3, Seed: int(evid.Seed()), BigLines: evid.Pick(9000, 30000), BigLen: 3900, Cuts: []int{100, 5000, 7777}}
+			c := Case{Kind: "file", Epoch: 3, Seed: int(evid.Seed()), BigLines: evid.Pick(12000, 30000), BigLen: 3900, Cuts: []int{100, 5000, 7777}}
 			if err := fileCase(c, rec); err != nil {
 				rec.Violate("file", err.Error(), c)
 			}
